@@ -84,6 +84,17 @@ struct VgxOut {
   }
 };
 
+static inline std::string vgx_readfile(const char* path) {
+  std::string s;
+  FILE* f = fopen(path, "rb");
+  if (!f) return s;
+  char tmp[65536];
+  size_t r;
+  while ((r = fread(tmp, 1, sizeof(tmp), f)) > 0) s.append(tmp, r);
+  fclose(f);
+  return s;
+}
+
 typedef void (*VgxPointFn)(long point, VgxOut& out, void* user);
 
 // first "SUMMARY:" / "runtime error:" / "ERROR: AddressSanitizer" line of a sanitizer report
@@ -262,6 +273,7 @@ static inline int vgx_run(long lo, long hi, long stride, long batch, VgxPointFn 
         else snprintf(st, sizeof(st), "exit%d", WEXITSTATUS(status));
         std::string sm = std::string(st) + " " + vgx_summary(errpath);
         printf("CRASH %ld %s\n", pts[i], sm.c_str());
+        if (getenv("VGX_VERBOSE")) { std::string full = vgx_readfile(errpath); fwrite(full.data(), 1, full.size(), stderr); }
         streak = (sm == last_summary) ? streak + 1 : 1;
         last_summary = sm;
         i++;
@@ -272,17 +284,6 @@ static inline int vgx_run(long lo, long hi, long stride, long batch, VgxPointFn 
   close(errfd);
   unlink(errpath);
   return 0;
-}
-
-static inline std::string vgx_readfile(const char* path) {
-  std::string s;
-  FILE* f = fopen(path, "rb");
-  if (!f) return s;
-  char tmp[65536];
-  size_t r;
-  while ((r = fread(tmp, 1, sizeof(tmp), f)) > 0) s.append(tmp, r);
-  fclose(f);
-  return s;
 }
 
 // short, stable class for an error message: text up to the first digit / newline / colon-after-prefix
